@@ -6,6 +6,21 @@ LOOPVARS = ["i", "j", "k"]
 LV_INIT = {"i": 41, "j": 42, "k": 43}
 
 
+MODULE = """module c05_mod
+contains
+  subroutine bump(k)
+    integer, intent(inout) :: k
+    k = 2 * k
+  end subroutine bump
+  subroutine addto(k, d)
+    integer, intent(inout) :: k
+    integer, intent(in) :: d
+    k = k + d
+  end subroutine addto
+end module c05_mod
+"""
+
+
 class P5(minif.Prog):
     """Program whose observable output also contains the DO variables i, j, k (they are
     initialised, so a zero-trip loop that no longer assigns its variable is visible)."""
@@ -13,18 +28,20 @@ class P5(minif.Prog):
     def __init__(self, scalars, arrays1, arrays2, init, body, init_vals):
         super().__init__(scalars, arrays1, arrays2, LOOPVARS + ["ii", "jj"], init, body)
         self.init_vals = init_vals
+        self.use_mod = False       # program calls the subroutines of MODULE
 
     def observed_scalars(self):
         return self.scalars + LOOPVARS
 
     def source(self, body=None, name="p", extra_decls=()):
-        lines = [f"program {name}"] + self.decls() + list(extra_decls) + self.init + (self.body if body is None else body)
+        lines = [f"program {name}"] + (["  use c05_mod"] if self.use_mod else []) + self.decls() \
+            + list(extra_decls) + self.init + (self.body if body is None else body)
         for s in self.observed_scalars():
             lines.append(f"  print *, {s}")
         for a in self.arrays1 + self.arrays2:
             lines.append(f"  print *, {a}")
         lines.append(f"end program {name}")
-        return "\n".join(lines) + "\n"
+        return (MODULE if self.use_mod else "") + "\n".join(lines) + "\n"
 
     def queries(self, names):
         q = [(names.id(s),) for s in self.observed_scalars()]
@@ -287,6 +304,58 @@ def gen_hoist(rng):
     if nested:
         body.append("    enddo")
     body.append("  enddo")
+    p.body = body
+    return p
+
+
+def gen_replaceiv(rng):
+    """loops whose bodies assign scalars from the loop variable / invariants (induction-variable
+    candidates), use them afterwards, and sometimes disqualify them: a second write, a read before
+    the assignment, a use as actual argument of a subroutine that modifies it (READWRITE access),
+    a write inside an if or an inner loop, a right-hand side that is written in the loop."""
+    p = make_prog(rng, with_m=False)
+    p.use_mod = True
+    hdr, _ = header(rng, "i", allow_scalar=(rng.random() < 0.25), allow_arr=False)
+    x = rng.random()
+    if x < 0.06:
+        hdr = "do i = 1, t"               # a candidate also occurs in the loop header
+    elif x < 0.10:
+        hdr = "do i = 1, 9, s1 - s1 + 2"  # step expression mentions a scalar
+    cands = ["t", "s1", "s0"]
+    body = ["  " + hdr]
+    ind = "    "
+    n = rng.randint(2, 5)
+    assigned = []
+    for k in range(n):
+        y = rng.random()
+        c = rng.choice(cands)
+        if y < 0.38:
+            rhs = rng.choice(["i + 1", "2 * i", "i - 1", "3", "i + s0", "s1 + 2", "i * i + 1", "max(i, 2)",
+                              "b(2) + i", "t + 1", "i + t", "a(i)", "s0 * 2 - i"])
+            body.append(f"{ind}{c} = {rhs}")
+            assigned.append(c)
+        elif y < 0.62:
+            u = rng.choice(assigned) if assigned and rng.random() < 0.8 else c
+            arr = rng.choice(p.arrays1)
+            body.append(f"{ind}{arr}({rng.choice(['i', 'i+1', '2'])}) = {rng.choice([u, u + ' + i', u + ' * 2', arr + '(i) + ' + u])}")
+        elif y < 0.78:
+            u = rng.choice(assigned) if assigned and rng.random() < 0.85 else c
+            body.append(f"{ind}call {rng.choice(['bump(' + u + ')', 'addto(' + u + ', ' + str(rng.randint(1, 4)) + ')'])}")
+        elif y < 0.86:
+            u = rng.choice(assigned) if assigned else c
+            body.append(f"{ind}if (a(i) > {rng.randint(0, 4)}) then")
+            body.append(f"{ind}  {rng.choice([u + ' = 7', 'c(i) = ' + u, 'call bump(' + u + ')'])}")
+            body.append(f"{ind}endif")
+        elif y < 0.93:
+            u = rng.choice(assigned) if assigned else c
+            body.append(f"{ind}do j = 1, 3")
+            body.append(f"{ind}  {rng.choice(['c(j) = c(j) + ' + u, u + ' = j', 'b(j + i) = ' + u + ' - j'])}")
+            body.append(f"{ind}enddo")
+        else:
+            body.append(ind + simple_assign(rng, p, "i"))
+    body.append("  enddo")
+    if rng.random() < 0.3:
+        body.append(f"  c(0) = {rng.choice(cands)}")
     p.body = body
     return p
 
